@@ -24,9 +24,18 @@ import (
 // script and datum collections).
 const formSet258 xcbor.Form = 100
 
+// formGhostAux is not an encoding change but a data-model one the era decoders
+// accept: the auxiliary-data map gets one more entry whose key is a
+// transaction index plus 2^32 (no transaction has that index, so no decoded
+// transaction owns the entry).
+const formGhostAux xcbor.Form = 101
+
 func formName(f xcbor.Form) string {
 	if f == formSet258 {
 		return "set258"
+	}
+	if f == formGhostAux {
+		return "ghost-entry-index+2^32"
 	}
 	return f.String()
 }
@@ -38,6 +47,8 @@ func formClass(f xcbor.Form) string {
 	switch f {
 	case formSet258:
 		return "set258"
+	case formGhostAux:
+		return "ghost-entry-index+2^32"
 	case xcbor.FormIndef:
 		return "indefinite"
 	case xcbor.FormMinimal:
@@ -77,7 +88,7 @@ func editsString(es []edit) string {
 
 func causeKey(layout, api string, e edit) string {
 	k := fmt.Sprintf("C07:%s:%s:%s:%s", layout, api, e.Role, formClass(e.Form))
-	if e.Size != "" {
+	if e.Size != "" && e.Form != formGhostAux {
 		k += ":" + e.Size
 	}
 	return k
@@ -90,6 +101,9 @@ var set258Roles = map[string]bool{"native-scripts-array": true, "plutus-scripts-
 func admissible(typ uint, r roleRef, f xcbor.Form) bool {
 	if f == formSet258 {
 		return typ >= fixtures.TypeConway && set258Roles[r.Role] && r.N.Kind == xcbor.Array
+	}
+	if f == formGhostAux {
+		return r.Role == "aux-map" && r.N.Kind == xcbor.Map
 	}
 	return canApply(r.N, f)
 }
@@ -139,7 +153,7 @@ func applyForm(n *xcbor.Node, f xcbor.Form, chunk int) {
 	n.Apply(f, chunk)
 }
 
-var allForms = []xcbor.Form{xcbor.FormMinimal, xcbor.FormW1, xcbor.FormW2, xcbor.FormW4, xcbor.FormW8, xcbor.FormIndef, formSet258}
+var allForms = []xcbor.Form{xcbor.FormMinimal, xcbor.FormW1, xcbor.FormW2, xcbor.FormW4, xcbor.FormW8, xcbor.FormIndef, formSet258, formGhostAux}
 
 // applyPlan clones base, applies the edits, recomputes the header commitment
 // and returns the encoded block.
@@ -151,6 +165,18 @@ func applyPlan(typ uint, base *xcbor.Node, plan []edit) ([]byte, error) {
 		n := nodes[e.Idx]
 		if e.Form == formSet258 {
 			wraps = append(wraps, n)
+			continue
+		}
+		if e.Form == formGhostAux {
+			// key = 2^32 + (index of the first transaction that has aux data, else 0)
+			k := uint64(1) << 32
+			if len(n.Items) >= 2 && n.Items[0].Kind == xcbor.Uint {
+				k += n.Items[0].Arg
+			}
+			n.Items = append(n.Items, xcbor.U(k), xcbor.M(xcbor.U(5), xcbor.T("ghost")))
+			if !n.Indef && n.Width < 1 {
+				n.Width = 0
+			}
 			continue
 		}
 		applyForm(n, e.Form, e.Chunk)
